@@ -17,6 +17,7 @@
 #include "CppUTest/TestPlugin.h"
 #include "CppUTest/TestRegistry.h"
 #include "CppUTest/TestHarness_c.h"
+#include "CppUTest/CommandLineTestRunner.h"
 #include <sys/mman.h>
 
 #undef new
@@ -49,6 +50,7 @@ Shared* g_sh = 0;
 // running registry once from its body and once from the post action of a designated recording plugin.
 struct Script {
     std::vector<std::pair<unsigned, unsigned> > sets; std::string outcome;   // outcome of the body
+    std::vector<std::pair<unsigned, unsigned> > ssets, tsets;                // redirections made in setup() / teardown() (`sset` / `tset`)
     std::string setup, teardown;                                             // how setup() / teardown() end ("pass" = normally)
     int bm_kind; unsigned bm_idx; std::string bm_name;                 // 0 none, 1 install rec[bm_idx], 2 remove bm_name
     unsigned pm_actor; int pm_kind; unsigned pm_idx; std::string pm_name;
@@ -98,6 +100,14 @@ void change_chain(int kind, unsigned idx, const char* name) {
     else if (kind == 2) g_reg->removePluginByName(name);
 }
 
+// the command-line runner with its console output kept away from the harness' stdout: `cli <n>` runs the queued tests
+// through CommandLineTestRunner::runAllTestsMain (which constructs, installs and afterwards removes by name its OWN
+// SetPointerPlugin) with the arguments `-e -r<n>`
+struct QuietRunner : public CommandLineTestRunner {
+    QuietRunner(int ac, const char* const* av, TestRegistry* r) : CommandLineTestRunner(ac, av, r) {}
+    TestOutput* createConsoleOutput() CPPUTEST_OVERRIDE { return new StringBufferTestOutput; }
+};
+
 // a plugin that reports a failure from its pre action, the non-terminating way (result.addFailure)
 struct FailPrePlugin : public RecPlugin {
     FailPrePlugin(const char* name, unsigned i) : RecPlugin(name, i) {}
@@ -145,17 +155,21 @@ struct ScriptFn : public ExecFunction {
     void exec() CPPUTEST_OVERRIDE { run_script(s, &g_bdone[k]); }
 };
 
-void run_script(const Script* s, volatile unsigned* done_counter) {
-    // no object with a destructor alive at the point where the body may be left by longjmp
-    size_t n = s->sets.size();
+void do_sets(const std::vector<std::pair<unsigned, unsigned> >& sets, volatile unsigned* done_counter) {
+    // no object with a destructor alive at the point where the phase may be left by longjmp
+    size_t n = sets.size();
     for (size_t i = 0; i < n; i++) {
-        unsigned l = s->sets[i].first, v = s->sets[i].second;
+        unsigned l = sets[i].first, v = sets[i].second;
         if (l < NVOID) UT_PTR_SET(g_ptr[l], (void*) &g_vals[v]);
         else if (l < NVOID + NTYPED) UT_PTR_SET(g_fp[l - NVOID], FN_VAL[v]);
         else if (l < NVOID + 2 * NTYPED) UT_PTR_SET(g_dp[l - NVOID - NTYPED], &g_dvals[v]);
         else UT_PTR_SET(g_pp[l - NVOID - 2 * NTYPED], &g_pvals[v]);
         *done_counter = *done_counter + 1;
     }
+}
+
+void run_script(const Script* s, volatile unsigned* done_counter) {
+    do_sets(s->sets, done_counter);
     // the change of the running registry's chain: after the redirections, before the test ends
     if (s->bm_kind) change_chain(s->bm_kind, s->bm_idx, s->bm_name.c_str());
     end_phase(s->outcome.c_str());
@@ -166,8 +180,10 @@ const Script* current_script() {
     if (g_batch_active) return g_bscript[batch_index(UtestShell::getCurrent())];
     return g_script;
 }
-void setup_fn() { const Script* s = current_script(); if (s) end_phase(s->setup.c_str()); }
-void teardown_fn() { const Script* s = current_script(); if (s) end_phase(s->teardown.c_str()); }
+// … after the redirections the script gives them (`sset` / `tset`; single tests only)
+volatile unsigned* phase_counter() { return g_batch_active ? &g_bdone[batch_index(UtestShell::getCurrent())] : &g_sh->done; }
+void setup_fn() { const Script* s = current_script(); if (s) { do_sets(s->ssets, phase_counter()); end_phase(s->setup.c_str()); } }
+void teardown_fn() { const Script* s = current_script(); if (s) { do_sets(s->tsets, phase_counter()); end_phase(s->teardown.c_str()); } }
 
 // an ignored test with the same body
 class BodyUtest : public Utest { public:
@@ -274,7 +290,7 @@ void run_case(const vh::Case& c) {
         }
     };
 
-    std::vector<std::pair<unsigned, unsigned> > pending;
+    std::vector<std::pair<unsigned, unsigned> > pending, pendingS, pendingT;
     for (size_t i = 0; i < c.ops.size(); i++) {
         const vh::Words& w = c.ops[i];
         if (w[0] == "install" && w.size() == 2) {                     // install <rec index | set>
@@ -324,12 +340,20 @@ void run_case(const vh::Case& c) {
             vh::emit("> set %u %u", l, v);
             pending.push_back(std::make_pair(l, v));
         }
+        else if ((w[0] == "sset" || w[0] == "tset") && w.size() == 3) {   // redirection in setup() / teardown() of the next single test
+            unsigned l = (unsigned) vh::to_u64(w[1]), v = (unsigned) vh::to_u64(w[2]);
+            if (l >= NPTR || v >= NVAL) { vh::emit("> skip"); continue; }
+            if (l >= NVOID) v = v % NTVAL;
+            vh::emit("> %s %u %u", w[0].c_str(), l, v);
+            (w[0] == "sset" ? pendingS : pendingT).push_back(std::make_pair(l, v));
+        }
         else if (w[0] == "run" && (w.size() == 2 || w.size() == 3)) {   // run <outcome> [normal|sep|ign|runign]: one test with the collected body
             Script sc;
             std::string kind = w.size() == 3 ? w[2] : "normal";
             if (!parse_outcome(w[1], sc)) { vh::emit("> skip"); continue; }
             if (kind != "normal" && kind != "sep" && kind != "ign" && kind != "runign") { vh::emit("> skip"); continue; }
             sc.sets = pending; pending.clear();
+            sc.ssets = pendingS; pendingS.clear(); sc.tsets = pendingT; pendingT.clear();
             vh::emit("> run %s %s", canon_outcome(sc).c_str(), kind.c_str());
             g_script = &sc;
             g_sh->done = 0; g_sh->npre = 0; g_sh->npost = 0;
@@ -388,9 +412,14 @@ void run_case(const vh::Case& c) {
             vh::emit("> test %s %s %s", canon_outcome(sc).c_str(), bm.c_str(), pm.c_str());
             batch.push_back(sc);
         }
-        else if (w[0] == "runall" && w.size() == 1) {      // all queued tests through ONE TestRegistry::runAllTests
-            if (batch.empty()) { vh::emit("> skip"); continue; }
-            vh::emit_op("runall");
+        else if ((w[0] == "runall" && w.size() == 1) || (w[0] == "cli" && w.size() == 2)) {
+            // runall: all queued tests through ONE TestRegistry::runAllTests;  cli <r>: through the command-line runner, r repetitions
+            bool cli = w[0] == "cli";
+            unsigned reps = cli ? (unsigned) vh::to_u64(w[1]) : 1;
+            bool plain = true;
+            for (size_t k = 0; k < batch.size(); k++) if (batch[k].bm_kind || batch[k].pm_kind) plain = false;
+            if (batch.empty() || (cli && (!plain || reps < 1 || reps > 3))) { vh::emit("> skip"); continue; }
+            if (cli) vh::emit("> cli %u", reps); else vh::emit_op("runall");
             unsigned n = (unsigned) batch.size();
             std::vector<ExecFunctionTestShell*> shells; std::vector<ScriptFn*> fns;
             g_bn = n; g_nblog = 0; g_bskipped = 0;
@@ -405,7 +434,14 @@ void run_case(const vh::Case& c) {
             g_script = &batch[n - 1];
             g_batch_active = true;
             fixture.flushOutputAndResetResult();
-            try { fixture.runAllTests(); } catch (...) { vh::emit("exception-escaped-the-runner"); }
+            if (cli) {
+                char rarg[16]; snprintf(rarg, sizeof rarg, "-r%u", reps);
+                const char* av[3] = { "h_c17", "-e", rarg };
+                try { QuietRunner runner(3, av, reg); runner.runAllTestsMain(); } catch (...) { vh::emit("exception-escaped-the-runner"); }
+            }
+            else {
+                try { fixture.runAllTests(); } catch (...) { vh::emit("exception-escaped-the-runner"); }
+            }
             g_batch_active = false;
             for (unsigned k = 0; k + 1 < n; k++) reg->unDoLastAddTest();
             for (unsigned k = 0; k < n; k++) {
@@ -418,7 +454,7 @@ void run_case(const vh::Case& c) {
                 vh::emit("t%u %s%s", k, post.c_str(), anypost ? "" : " -");
                 vh::emit("t%u done %u", k, g_bdone[k]);
             }
-            if (fixture.getRunCount() != n) vh::emit("ran %lu", (unsigned long) fixture.getRunCount());
+            if (!cli && fixture.getRunCount() != n) vh::emit("ran %lu", (unsigned long) fixture.getRunCount());
             Local::emit_chain(reg);
             std::string m = "mem";
             for (unsigned k = 0; k < NPTR; k++) { m += " "; m += val_token(k); }
